@@ -36,6 +36,7 @@ import (
 	"github.com/openconfig/gnmi/metadata"
 	"github.com/openconfig/gnmi/path"
 	"github.com/openconfig/gnmi/value"
+	"github.com/openconfig/gnmi/verifhook"
 
 	pb "github.com/openconfig/gnmi/proto/gnmi"
 )
@@ -413,6 +414,7 @@ func (t *Target) GnmiUpdate(n *pb.Notification) error {
 		updateTS = true
 		if nd != nil {
 			t.meta.AddInt(metadata.UpdateCount, int64(l))
+			verifhook.Point("cache.feed", nd)
 			t.client(nd)
 		}
 
@@ -438,6 +440,7 @@ func (t *Target) GnmiUpdate(n *pb.Notification) error {
 			updateTS = true
 			if nd != nil {
 				t.meta.AddInt(metadata.UpdateCount, 1)
+				verifhook.Point("cache.feed", nd)
 				t.client(nd)
 			}
 		}
@@ -447,6 +450,7 @@ func (t *Target) GnmiUpdate(n *pb.Notification) error {
 			noti.Delete = []*pb.Path{d}
 			t.meta.AddInt(metadata.UpdateCount, 1)
 			for _, nd := range t.gnmiRemove(noti) {
+				verifhook.Point("cache.feed", nd)
 				t.client(nd)
 			}
 		}
@@ -462,6 +466,7 @@ func (t *Target) GnmiUpdate(n *pb.Notification) error {
 		updateTS = true
 		if nd != nil {
 			t.meta.AddInt(metadata.UpdateCount, 1)
+			verifhook.Point("cache.feed", nd)
 			t.client(nd)
 		}
 
@@ -469,6 +474,7 @@ func (t *Target) GnmiUpdate(n *pb.Notification) error {
 	case len(n.GetDelete()) == 1:
 		t.meta.AddInt(metadata.UpdateCount, 1)
 		for _, nd := range t.gnmiRemove(n) {
+			verifhook.Point("cache.feed", nd)
 			t.client(nd)
 		}
 
